@@ -427,6 +427,8 @@ pub fn cases() -> Vec<Case> {
                         }
                     }
                 }
+                // plain states first (well-formed meter, non-negative refund counter): simpler witnesses
+                v.sort_by_key(|x: &Args| (x[1].u64() > x[0].u64(), x[2].i64() < 0));
                 v
             }),
             random: Box::new(move |r| {
